@@ -432,6 +432,15 @@ def verify(path, model, out, log, step, absent=None, deep=True):
             out.violate("V1-acknowledged-durable" if set(model.geoms) - set(geoms) else "V2-failed-leaves-nothing",
                         "geometry-list", {"step": step, "file": geoms, "model": sorted(model.geoms)})
             return False
+        try:
+            listed_states = set(imp.states())
+        except Exception as e:   # noqa
+            out.violate("V1-readable", "states", {"step": step, "type": type(e).__name__, "msg": str(e)})
+            return False
+        if not set(k[0] for k in model.vars) <= listed_states:
+            out.violate("V1-acknowledged-durable", "variable-list", {"step": step, "states_in_file": sorted(listed_states),
+                                                                     "states_in_model": sorted(set(k[0] for k in model.vars))})
+            return False
         raw = h5py.File(path, "r")
         for g in geoms:
             mesh = model.geoms[g]
@@ -508,6 +517,18 @@ def _verify_geometry(imp, raw, g, mesh, model, out, log, step):
             return False
     if not df.equals(df2):
         out.violate("V4-repeatable-read", "geometry", {"step": step, "geometry": g})
+        return False
+    # node table on its own
+    try:
+        nd = imp.nodes(g)
+        got_nodes = {int(i): [float(x) for x in row] for i, row in zip(nd.index, nd[cols].to_numpy())}
+    except Exception as e:   # noqa
+        out.violate("V1-acknowledged-durable", "geometry-read", {"step": step, "geometry": g, "call": "nodes()", "type": type(e).__name__, "msg": str(e)[:200]})
+        return False
+    want_nodes = {int(n): [float(x) for x in c] for n, c in mesh["coords"].items()}
+    if got_nodes != want_nodes or len(nd) != len(want_nodes):
+        out.violate("V1-acknowledged-durable", "geometry-coordinates", {"step": step, "geometry": g, "call": "nodes()",
+                                                                        "file_nodes": sorted(got_nodes)[:30], "model_nodes": sorted(want_nodes)[:30]})
         return False
     log.add("geom", step, g, len(want_idx))
     # counters of the geometry
